@@ -976,16 +976,19 @@ Definition handle_jump (s : state) (id i tg : nat) (jctx : kv) : hres :=
                                        (filter (fun j => mem_nat j (closed_downstream s i)) (seqn (length (w_stages s)))) in
             let nj := (s_jump_count src + 1)%Z in
             let set_jc (st : stage) := st_ctl st (s_bypass st) nj (s_buffered st) (s_signal st) in
+            (* _synthetic_reset_mutations: one reset per synthetic child (get_synthetic_stages, row order, read before
+               the transaction), appended right after the mutation of its re-armed parent *)
+            let kid_resets (j : nat) : list commit := map (fun c => c_mutate c reset_for_retry) (children s j) in
             let src_mut : list commit :=
               if self_loop then []
-              else if backward then [c_mutate i (fun st => set_jc (reset_for_retry st))]
+              else if backward then c_mutate i (fun st => set_jc (reset_for_retry st)) :: kid_resets i
               else [c_mutate i (fun st => set_jc (to_succeeded st))] in
             let tgt_mut : commit :=
               c_mutate tg (fun st => let r := reset_for_retry st in
                                    st_ctl (with_ctx r (kv_update (s_ctx r) jctx)) true nj (s_buffered r) (s_signal r)) in
-            ok [txn (map (fun j => c_mutate j reset_for_retry) resets ++
+            ok [txn (flat_map (fun j => c_mutate j reset_for_retry :: kid_resets j) resets ++
                      map (fun j => c_mutate j to_skipped) skipped ++
-                     src_mut ++ [tgt_mut; c_mark id; c_push (MStartStage tg 0)])]
+                     src_mut ++ tgt_mut :: kid_resets tg ++ [c_mark id; c_push (MStartStage tg 0)])]
       end
   end.
 
